@@ -2,13 +2,15 @@
 package c04
 
 import (
-	"os"
 	"bytes"
+	"context"
+	"os"
 	"encoding/base64"
 	"encoding/hex"
 	"fmt"
 	"strings"
 
+	trcommon "github.com/cossacklabs/acra/cmd/acra-translator/common"
 	"github.com/cossacklabs/acra/keystore"
 	"github.com/jackc/pgx/v5/pgproto3"
 
@@ -141,8 +143,12 @@ type World struct {
 var SpellingDiffs int
 
 func sendStep(c *proxyrig.PGClient, st proxyrig.Step) ([][]proxyrig.BackendMsg, error) {
+	return sendGroups(c, st.Groups)
+}
+
+func sendGroups(c *proxyrig.PGClient, groups [][]pgproto3.FrontendMessage) ([][]proxyrig.BackendMsg, error) {
 	var out [][]proxyrig.BackendMsg
-	for _, g := range st.Groups {
+	for _, g := range groups {
 		if err := c.Send(g...); err != nil {
 			return out, err
 		}
@@ -268,6 +274,7 @@ func Run(r *ev.Run) {
 	r.RequireAtLeast("stored_values_checked_protected", 100)
 	r.RequireAtLeast("db_stream_marker_checks", 100)
 	r.RequireAtLeast("nonowner_reads_checked", 20)
+	r.RequireAtLeast("app_encrypted_writes", 5)
 }
 
 func colClass(c proxyrig.ColSpec) string {
@@ -315,6 +322,37 @@ func OpenWorld(r *ev.Run, tables []proxyrig.TableSpec, censorYAML string) (w *Wo
 	return w, ac, rc, func() { ac.Close(); rc.Close(); pw.Close(); os.RemoveAll(dir) }, true
 }
 
+// AppEncrypt returns the application-side encryption used for "the value arrives already encrypted" writes: the owner's
+// AcraTranslator output (Encrypt -> AcraStruct, EncryptSym -> AcraBlock). The envelope kind follows the column's
+// configuration, except for one plaintext in eight (first byte & 7 == 0) where the other kind is used: either kind is a
+// value Acra accepts as already protected.
+func AppEncrypt(w *World) func(c proxyrig.ColSpec, plain []byte) []byte {
+	ts, err := trcommon.NewTranslatorService(&trcommon.TranslatorData{Keystorage: w.KS})
+	if err != nil {
+		panic(err)
+	}
+	return func(c proxyrig.ColSpec, plain []byte) []byte {
+		block := c.Envelope == "acrablock"
+		if len(plain) > 0 && plain[0]&7 == 0 {
+			block = !block
+		}
+		var out []byte
+		var err error
+		if block {
+			out, err = ts.EncryptSym(context.Background(), plain, []byte(owner), nil)
+		} else {
+			out, err = ts.Encrypt(context.Background(), plain, []byte(owner), nil)
+		}
+		if err != nil {
+			panic(err)
+		}
+		return out
+	}
+}
+
+// AppEncryptable selects the columns app-side encrypted writes are generated for.
+func AppEncryptable(c proxyrig.ColSpec) bool { return c.Kind == "enc" || c.Kind == "search" }
+
 func runSession(r *ev.Run, rng *gen.Rand, sidx int) {
 	tables := proxyrig.GenTables(rng, 1+rng.Intn(3), other, nil)
 	w, ac, rc, closeAll, ok := OpenWorld(r, tables, "")
@@ -325,8 +363,15 @@ func runSession(r *ev.Run, rng *gen.Rand, sidx int) {
 	g := proxyrig.NewSessGen(rng, tables)
 	nSteps := 5 + rng.Intn(36)
 	var history []string
+	appEnc := AppEncrypt(w)
 	for i := 0; i < nSteps; i++ {
 		st := g.Next()
+		if rng.Intn(10) == 0 {
+			if ast, ok := g.AppEncryptedInsert(appEnc, AppEncryptable); ok {
+				st = ast
+				r.Count("app_encrypted_writes", 1)
+			}
+		}
 		history = append(history, fmt.Sprintf("[%s %s/%s/%s] %s", st.Proto, st.ParamFmt, st.ResFmt, st.Kind, trunc(st.SQL, 300)))
 		if !RunStep(r, w, ac, rc, st, history, sidx) {
 			return
@@ -362,7 +407,11 @@ func RunStep(r *ev.Run, w *World, ac, rc *proxyrig.PGClient, st proxyrig.Step, h
 		}
 		return m
 	}
-	refReplies, rerr := sendStep(rc, st)
+	refGroups := st.Groups
+	if st.RefGroups != nil {
+		refGroups = st.RefGroups
+	}
+	refReplies, rerr := sendGroups(rc, refGroups)
 	if rerr != nil {
 		r.Inconclusive("reference database exchange failed: " + rerr.Error())
 		return false
